@@ -256,7 +256,9 @@ def oracle_final_states(w: c15.World, must_have: int, limit=20000):
         good = True
         while todo and good:
             p = todo.pop()
-            for c in c15.CLASSES:
+            # merge_plan skips DEPEND/BDEPEND of a built (installed) package
+            classes = ("rdepend", "idepend", "pdepend") if (w.meta[p][2] and w.built) else c15.CLASSES
+            for c in classes:
                 for clause in w.meta[p][3][c]:
                     sat = False
                     for a, blocks in clause:
@@ -303,7 +305,18 @@ def _resolver_can_keep(scn, w, tindex) -> bool:
     r = w2.resolve()
     if isinstance(r, Err) or r[0] != "ok":
         return False
-    return not c15.py_check(w2, r[1])
+    if c15.py_check(w2, r[1]):
+        return False
+    # ... and, in the full universe, asking for exactly the installed version must not fail outright
+    # (it fails when the installed package's own dependencies defeat this greedy search)
+    for i in sorted(cands):
+        if w.meta[i][2]:
+            tg = list(scn["targets"])
+            tg[tindex] = "=" + scn["vdb"][i][0]
+            r3 = c15.World(dict(scn, targets=list(dict.fromkeys(tg)))).resolve()
+            if not isinstance(r3, Err) and r3[0] == "ok":
+                return True
+    return False
 
 
 def _presolved(scn, w, tindex) -> bool:
@@ -367,7 +380,7 @@ def gen_cycle_scenario(rng):
         if cpv in ("a/x-1", "a/y-1", "a/w-1", "a/t-1", "a/u-1") and rng.random() < 0.22:
             vdb.append([cpv, slot, dict(deps) if rng.random() < 0.6 else {}])
     return {"vdb": vdb, "src": src, "targets": targets, "kind": "upgrade" if rng.random() < 0.8 else "min",
-            "family": "cycle"}
+            "family": "cycle", "built": rng.random() < 0.5}
 
 
 def _best(w, cands):
@@ -427,7 +440,7 @@ def judge(chk, scn, stats, bad, strict):
                 # equal version present: the installed instance must have been preferred
                 inst = [i for i in cands if w.meta[i][2] and w.pkgs[i] == w.pkgs[best]]
                 if inst and not any(i in fin for i in inst):
-                    if oracle_final_states(w, inst[0]):
+                    if oracle_final_states(w, inst[0]) and (strict or _resolver_can_keep(scn, w, tindex)):
                         bad.append({"what": "upgrade: an installed instance of the highest version exists and is "
                                             "resolvable, but it was replaced by the source instance",
                                     "input": scn, "ops": ops, "installed": [w.scn_name(i) for i in inst]})
@@ -459,6 +472,9 @@ def judge(chk, scn, stats, bad, strict):
             inst = [i for i in cands if w.meta[i][2]]
             if not inst:
                 continue
+            if not strict and len(w.targets) > 1:
+                continue        # several targets compete for slots; min-install is judged on single targets
+                                # (and, with several targets, in the structured families)
             if any(i in fin for i in inst):
                 stats["min_checked"] += 1
                 continue
@@ -481,7 +497,7 @@ def policy(chk: Check):
              "twice_same": 0, "oracle_no_verdict": 0}
     bad = []
     for scn in corpus_scenarios():
-        judge(chk, scn, stats, bad, strict=scn.get("family") == "cycle")
+        judge(chk, scn, stats, bad, strict=scn.get("family") in ("cycle", "built"))
     # random universes of C15's generator: one target, or several targets on one resolver object
     for _ in range(chk.n(320, 8000)):
         scn = c15.gen_scenario(rng)
@@ -494,6 +510,11 @@ def policy(chk: Check):
     for _ in range(chk.n(250, 6000)):
         judge(chk, gen_cycle_scenario(rng), stats, bad, strict=True)
     stats["cycle_family"] = {k: stats[k] - base.get(k, 0) for k in ("runs", "ok", "upgrade_checked", "min_checked")}
+    base = dict((k, v) for k, v in stats.items() if not isinstance(v, dict))
+    # structured family around built installed packages and candidate fallback (strict judgement)
+    for _ in range(chk.n(150, 4000)):
+        judge(chk, c15.gen_built_scenario(rng), stats, bad, strict=True)
+    stats["built_family"] = {k: stats[k] - base.get(k, 0) for k in ("runs", "ok", "upgrade_checked", "min_checked")}
     chk.count("policy", stats["runs"])
     chk.cov["policy"] = stats
     shown = 0
